@@ -14,5 +14,5 @@ for d in /verif/seeded/*/; do
   out=$(VERIF_REPO="$wt" timeout 1500 /venv/bin/python "$HERE/check.py" "$pid" --tier quick 2>&1); rc=$?
   git -C "$wt" checkout -- . ; git -C "$wt" clean -fdq
   n=$(echo "$out" | grep -c "^VIOLATION")
-  echo "$id exit=$rc violations=$n $(echo "$out" | grep -m1 "oracle=" | cut -c1-120)"
+  echo "$id exit=$rc violations=$n $(echo "$out" | grep -m1 "oracle=" | cut -c1-120) $(echo "$out" | grep -m2 "HARNESS" | cut -c1-400 | tr "\n" " ")"
 done
